@@ -910,12 +910,13 @@ Definition sb_nodouble_local (l : list (oev nat)) : bool :=
     [TT] (call script): take the next buffer the generator kept — no allocator
     operation, it is now the top.  So a call can resize or free memory that was
     allocated outside the timed section. *)
-Inductive tok := TA (n : N) | TD | TG (n : N) | TS (n : N) | TK | TT.
+Inductive tok := TA (n : N) | TD | TG (n : N) | TS (n : N) | TK | TT
+               | TZ (n : N).   (* allocate [n] zero-initialised bytes: [GlobalAlloc::alloc_zeroed], tallied as an allocation *)
 
 Fixpoint interp (l : list tok) (stack : list N) (kept : list N) : list aop :=
   match l with
   | [] => []
-  | TA n :: r => Alloc n :: interp r (n :: stack) kept
+  | TA n :: r | TZ n :: r => Alloc n :: interp r (n :: stack) kept
   | TD :: r => match stack with s :: st => Dealloc s :: interp r st kept | [] => interp r [] kept end
   | TG n :: r | TS n :: r =>
       match stack with s :: st => Realloc s n :: interp r (n :: st) kept | [] => interp r [] kept end
@@ -927,7 +928,7 @@ Fixpoint interp (l : list tok) (stack : list N) (kept : list N) : list aop :=
 Fixpoint kept_of (l : list tok) (stack : list N) : list N :=
   match l with
   | [] => []
-  | TA n :: r => kept_of r (n :: stack)
+  | TA n :: r | TZ n :: r => kept_of r (n :: stack)
   | TD :: r => match stack with _ :: st => kept_of r st | [] => kept_of r [] end
   | TG n :: r | TS n :: r => match stack with _ :: st => kept_of r (n :: st) | [] => kept_of r [] end
   | TK :: r => match stack with s :: st => s :: kept_of r st | [] => kept_of r [] end
